@@ -362,6 +362,71 @@ impl<'a, 'tcx> Cx<'a, 'tcx> {
                             }
                         }
                     }
+                    ty::Ref(_, inner, _)
+                        if matches!(
+                            inner.kind(),
+                            ty::Bool | ty::Int(_) | ty::Uint(_)
+                        ) =>
+                    {
+                        // `&<literal>` promoted to a constant: read the
+                        // literal from the promoted body `_1 = const X;
+                        // _0 = &_1`.
+                        if let mir::Const::Unevaluated(uv, _) = c.const_ {
+                            if let Some(pi) = uv.promoted {
+                                let bodies = tcx.promoted_mir(uv.def);
+                                if let Some(pb) = bodies.get(pi) {
+                                    let mut lit = None;
+                                    let mut n = 0;
+                                    for bb in pb.basic_blocks.iter() {
+                                        for st in bb.statements.iter() {
+                                            if let StatementKind::Assign(bx) =
+                                                &st.kind
+                                            {
+                                                n += 1;
+                                                if let Rvalue::Use(
+                                                    Operand::Constant(ic),
+                                                    ..,
+                                                ) = &bx.1
+                                                {
+                                                    if let Some(si) = ic
+                                                        .const_
+                                                        .try_eval_scalar_int(
+                                                            tcx, self.env,
+                                                        )
+                                                    {
+                                                        lit = Some((
+                                                            si,
+                                                            ic.const_.ty(),
+                                                        ));
+                                                    }
+                                                }
+                                            }
+                                        }
+                                    }
+                                    if let (Some((si, lt)), true) =
+                                        (lit, n <= 2)
+                                    {
+                                        let sz = si.size();
+                                        let bits = si.to_bits(sz);
+                                        let v = if let ty::Int(_) = lt.kind()
+                                        {
+                                            format!(
+                                                "{}",
+                                                sz.sign_extend(bits)
+                                            )
+                                        } else {
+                                            format!("{}", bits)
+                                        };
+                                        o.push(("ref_int", J::s(v)));
+                                        o.push((
+                                            "ref_ty",
+                                            ty_j(tcx, lt),
+                                        ));
+                                    }
+                                }
+                            }
+                        }
+                    }
                     _ => {}
                 }
                 J::obj(o)
